@@ -136,3 +136,19 @@ PROPS['C02'] = dict(
     technique='reference-model monitor (i128 nanoseconds + calendar) over boundary-exhaustive and seeded inputs; release + debug-assertion builds',
     design_ref='DESIGN.md section 4, C02',
 )
+
+PROPS['C08'] = dict(
+    sub='c08',
+    quick=[S('rel'), S('dbg')],
+    thorough=[S('rel'), S('dbg')],
+    rule='seeded (civil value, operand) pairs: values biased to range limits, month ends, Feb 28/29, years around 0, midnight/noon/second boundaries; operands = spans with 1-4 non-zero units of one sign '
+         '(each unit at 1, limit, limit-1, half limit, log-uniform), signed durations up to +-(i64::MAX s), std Durations up to u64::MAX s, and operands aimed to land within 1 unit of a range limit, a midnight or a clamped month end; '
+         'each through checked/saturating add and sub, the + and - operators (only where Ok), Time wrapping add/sub, and the three *Series iterators (first 24 items). '
+         'distinct_nontrivial = distinct cases with >= 2 non-zero units, a month/year unit, or a duration of a day or more',
+    floors={'quick': {'evaluations': 50000000, 'distinct_nontrivial': 3000000}, 'thorough': {'evaluations': 300000000, 'distinct_nontrivial': 3000000}},
+    assumptions=COMMON_ASSUME + ['Time::checked_add of a span with non-zero calendar units is refused by jiff; the statement is silent, so only absence of panics is required there'],
+    level_text='Reference-model monitoring of the real arithmetic entry points in both build modes: millions of limit-biased (value, span|duration) pairs per run compared with exact i128 day-number/nanosecond arithmetic (months first with clamping, then days, then 24h carry), including Ok/Err-ness, saturation targets and wrap-around.',
+    level_note='Trusted base: arith.rs + cal.rs. Argument tuples are sampled (single units at their limits are enumerated).',
+    technique='reference-model monitor over seeded limit-biased inputs; release + debug-assertion builds',
+    design_ref='DESIGN.md section 4, C08',
+)
